@@ -301,6 +301,26 @@ theorem bulk_eq_singles_alone (env : Env V Out) (r : FlowRow) (ds : DataSheet V)
   have := bulk_eq_singles env r ds hds hb hs hid [] [] []
   simpa [parseAllFlows] using this
 
+/-- **zero rows, zero flows.**  Anywhere in a content index, a bulk `create_flow` row over a data
+sheet that holds NO row (a header-only sheet, a filter that keeps nothing) may be deleted:
+it defines no flow and raises no error, whatever its template — which is never looked up — and
+its arguments. -/
+theorem bulk_empty_sheet (env : Env V Out) (r : FlowRow)
+    (hds : r.dataSheet ≠ []) (hb : r.dataRowId = [])
+    (hs : dictGet env.sheets r.dataSheet = some [])
+    (pre post : List FlowRow) (fl : Flows Out) :
+    runRows env (pre ++ r :: post) fl = runRows env (pre ++ post) fl := by
+  have h := bulk_eq_singles env r [] hds hb hs (by simp [keys]) pre post fl
+  simpa [singles, keys] using h
+
+/-- alone in an index it gives the empty container -/
+theorem bulk_empty_sheet_alone (env : Env V Out) (r : FlowRow)
+    (hds : r.dataSheet ≠ []) (hb : r.dataRowId = [])
+    (hs : dictGet env.sheets r.dataSheet = some []) :
+    parseAllFlows env [r] = .ok [] := by
+  have h := bulk_empty_sheet env r hds hb hs [] [] []
+  simpa [parseAllFlows, runRows] using h
+
 /-! ### names -/
 
 theorem flowName_inj (base : Str) {i j : Str} (h : flowName base i = flowName base j) : i = j := by
